@@ -978,6 +978,18 @@ func scenariosMain(args []string) int {
 		snapshotOrderOracle(c)
 		ran["oracle:snapshot-request-ordered-with-applies"] = len(w.cases) - before
 	}()
+	func() {
+		c := newScenarioCluster(w, out, 1, seed)
+		defer c.close()
+		defer func() {
+			if v := recover(); v != nil {
+				w.findings = append(w.findings, fmt.Sprintf("C15|scenario-panic restore-order|restore order oracle: harness panic %v|", v))
+			}
+		}()
+		before := len(w.cases)
+		restoreOrderOracle(c)
+		ran["oracle:restore-position"] = len(w.cases) - before
+	}()
 	w.flush(out, 250, map[string]interface{}{"seed": seed, "errors": nil, "scenarios": ran})
 	return 0
 }
